@@ -181,16 +181,14 @@ def oracle(case, r):
 # running
 # --------------------------------------------------------------------------------------------------
 
-def patterns(events, parts_by_name):
-    """histogram of POINT ids plus the derived patterns of PATTERNS"""
+def patterns(events):
+    """histogram of the barrier's POINT ids plus derived patterns (see PATTERNS)"""
     h = {}
-    last = {}            # (actor, ctx) -> last point id on the barrier
-    ncalls, nrets = {}, {}
+    last = {}            # (actor, ctx) -> last point id on the barrier within the current call
     for e in events:
         if e.kind == "S" and e.words and e.words[0] == "wakemanys.spin":
             h["wakemanys.spin"] = h.get("wakemanys.spin", 0) + 1
         if e.kind == "C" and e.words[0] == "bwait":
-            ncalls[e.actor] = ncalls.get(e.actor, 0) + 1
             last[(e.actor, "m")] = None
             last[(e.actor, "c")] = None
         if e.kind != "P":
@@ -205,13 +203,13 @@ def patterns(events, parts_by_name):
             h["push.cas.failed"] = h.get("push.cas.failed", 0) + 1
         if pid == "barrier.read" and prev == "barrier.cas":
             h["barrier.cas.failed"] = h.get("barrier.cas.failed", 0) + 1
-        if pid == "sstack.pop.read" and prev == "sstack.pop.cas" and getattr(e, "_popfail", True):
-            pass
-        if pid == "barrier.cas" and e.ctx == "m":
-            # a racer: arrives in round k+1 while somebody else has not yet returned from round k.
-            # visible in the trace as an arrival CAS while a wakemanys.push of the previous round is pending
-            pass
         last[key] = pid
+    n = pop_failures(events)
+    if n:
+        h["pop.cas.failed"] = n
+    n = racer_ahead(events)
+    if n:
+        h["racer.ahead"] = n
     return h
 
 
@@ -249,6 +247,9 @@ def run_cases(ctx, exe, drv, cases, tag="c", timeout=60):
     wd = os.path.join(ctx.dir, "runs")
     blocks, owners = [], []
     for i, c in enumerate(cases):
+        if not os.path.exists(exe):
+            # the content-addressed binary was pruned by a concurrent build of another check: rebuild it
+            exe = trace.build_interp()
         r = trace.run_case(exe, c, wd, "%s%04d" % (tag, i), timeout=timeout)
         r["case"] = c
         r["blocks"] = []
@@ -268,3 +269,160 @@ def run_cases(ctx, exe, drv, cases, tag="c", timeout=60):
             r["fail_context"].append({"verdict": x, "model_input_tail": b[0][max(0, k - 10):k + 1],
                                       "trace_line": b[1][k].raw if k < len(b[1]) and b[1][k] is not None else None})
     return out
+
+
+def load_corpus():
+    d = os.path.join(vlib.VERIF, "corpus", "C06")
+    res = []
+    if os.path.isdir(d):
+        for f in sorted(os.listdir(d)):
+            if f.endswith(".case"):
+                res.append(open(os.path.join(d, f)).read())
+    return res
+
+
+def gen_cases(ctx, n_grid, n_racer):
+    r = ctx.rng
+    cases = []
+    # every (N, rounds) combination at least once, with random workers / pswitch / racer
+    for N in (1, 2, 3, 5):
+        for rounds in range(1, 7):
+            cases.append(gen_case(r, N=N, rounds=rounds))
+    for _ in range(n_grid):
+        cases.append(gen_case(r))
+    # racer-heavy stratum: a participant with no work between rounds, many workers, frequent preemption
+    for _ in range(n_racer):
+        N = r.choice([2, 3, 5, 5])
+        cases.append(gen_case(r, N=N, rounds=r.rng(2, 6), workers=r.rng(2, 4), pswitch=r.choice([60, 85, 85]),
+                              racer=r.below(N)))
+    return cases
+
+
+def variants(ctx, case, n):
+    """the same program under other controller seeds / preemption rates / worker counts"""
+    lines = case.split("\n")
+    out = []
+    for _ in range(n):
+        l2 = []
+        for l in lines:
+            if l.startswith("seed "):
+                l = "seed %d" % ctx.rng.rng(1, 1 << 30)
+            elif l.startswith("pswitch "):
+                l = "pswitch %d" % ctx.rng.choice([35, 60, 75, 85, 90])
+            elif l.startswith("workers "):
+                l = "workers %d" % ctx.rng.rng(1, 4)
+            l2.append(l)
+        out.append("\n".join(l2))
+    return out
+
+
+def replay_body(r, msg, model=None):
+    tail = [e.raw for e in r["events"][-40:]]
+    return {"case": r["case"], "observed": {"verdict": r["verdict"], "rc": r["rc"], "oracle": msg,
+                                            "model": model if model is not None else r.get("model"),
+                                            "trace_tail": tail},
+            "expected": "verdict DONE; every k-th return after all N k-th calls; per round exactly one return value 1 "
+                        "and N-1 zeros; counters in {k, k+1}; trace accepted by the extracted model",
+            "level": "library (lib_interp under the schedule controller)"}
+
+
+def run(ctx):
+    broken, log = ctx.prove("Properties_C06.v", "Properties_C06")
+    exe, drv = build(ctx)
+    corpus = load_corpus()
+    n_grid, n_racer = (400, 200) if not ctx.thorough else (9000, 4000)
+    cases = corpus + gen_cases(ctx, n_grid, n_racer)
+    results = []
+    CH = 400
+    for i in range(0, len(cases), CH):
+        results += run_cases(ctx, exe, drv, cases[i:i + CH], tag="b%02d_" % (i // CH))
+    hist, dist, verdicts = {}, {}, {}
+    oracle_fail, model_fail = [], []
+    events_total = 0
+    for r in results:
+        for k, v in patterns(r["events"]).items():
+            hist[k] = hist.get(k, 0) + v
+        events_total += sum(int(m.split()[1]) for m in r["model"] if m.startswith("ok"))
+        bs = barriers_of(r["case"])
+        _, _, _, params = trace.parse_case(r["case"])
+        key = "N=%s w=%s p=%s" % (bs[0][1] if bs else "?", params.get("workers"), params.get("pswitch"))
+        dist[key] = dist.get(key, 0) + 1
+        v = (r["verdict"] or "none").split()[0]
+        verdicts[v] = verdicts.get(v, 0) + 1
+        msg = oracle(r["case"], r)
+        if msg:
+            oracle_fail.append((r, msg))
+        if any(not m.startswith("ok") for m in r["model"]) or not r["model"]:
+            model_fail.append(r)
+    searched = 0
+    if not oracle_fail and (model_fail or broken):
+        # correspondence (or a proof) broke without a failing input so far: search the neighbourhood of the
+        # disagreeing programs (other seeds, more preemption, other worker counts) for an oracle failure
+        seeds = [r["case"] for r in model_fail[:6]] or cases[:6]
+        extra = []
+        for c in seeds:
+            extra += variants(ctx, c, 120 if not ctx.thorough else 600)
+        sres = run_cases(ctx, exe, drv, extra, tag="s")
+        searched = len(sres)
+        for r in sres:
+            msg = oracle(r["case"], r)
+            if msg:
+                oracle_fail.append((r, msg))
+                break
+    missing = [p for p in POINTS + PATTERNS if hist.get(p, 0) == 0]
+    ctx.cov["correspondence"] = {
+        "cases": len(results), "corpus_cases": len(corpus), "model_steps_replayed": events_total,
+        "disagreements": len(model_fail), "oracle_failures": len(oracle_fail), "search_runs": searched,
+        "input_distribution": dist, "verdicts": verdicts, "point_histogram": hist,
+        "points_required": POINTS + PATTERNS, "points_missing": missing}
+    ctx.cov["evaluations"] = events_total
+    ctx.cov["samples"] += [{"case": results[i]["case"], "verdict": results[i]["verdict"], "model": results[i]["model"]}
+                           for i in (0, len(results) // 2, len(results) - 1) if results]
+    ctx.cov["trusted_base"] += [
+        "extraction: ExtrOcamlBasic only; ocaml/driver_C06.ml, ocaml/zio.ml",
+        "harness/lib_interp.c (schedule controller + interpreter), tools/trace.py (trace parser), the projection "
+        "c06_block in tools/props/c06.py (thread tags -> participant indices)",
+        "MYTH_VERIF_POINT placement: one POINT = one shared access (x->next is read in the step of sstack.pop.cas; "
+        "the private-list next link is read in the step of the preceding wakemanys.push)",
+        "modelled, not verified: run queues / work stealing (a pushed thread eventually runs), context save before "
+        "the callback runs, sequentially consistent memory (x86 TSO not modelled here)"]
+    if oracle_fail:
+        r, msg = oracle_fail[0]
+        ctx.violation("oracle", msg, replay_body(r, msg), found=True)
+    elif model_fail:
+        r = model_fail[0]
+        ctx.violation("correspondence",
+                      "model and implementation disagree on %d trace(s) (no property failure found in %d search runs); "
+                      "first: %s" % (len(model_fail), searched, (r["model"] or ["no verdict"])[0]),
+                      dict(replay_body(r, None), theorem_or_correspondence="correspondence Barrier/BarrierModel.v <-> "
+                           "src/myth_sync_func.h myth_barrier_wait_body / src/myth_sleep_queue_func.h",
+                           fail_context=r["fail_context"][:2]), found=False)
+    if broken:
+        ctx.violation("proof", "theorem(s) no longer check: " + ", ".join(broken),
+                      {"theorem_or_correspondence": ", ".join(broken), "log": getattr(ctx, "proof_log", log[-3000:])},
+                      found=False)
+    if missing and not oracle_fail and not model_fail:
+        ctx.violation("coverage", "POINT ids / patterns never exercised in this run: " + ", ".join(missing),
+                      {"theorem_or_correspondence": "coverage of the barrier / sleep-stack points", "histogram": hist},
+                      found=False)
+    return ctx.finish(assumptions=[
+        "program class: exactly N participants, each calling wait repeatedly on a barrier initialised for N (N >= 1)",
+        "sequential consistency at the granularity of MYTH_VERIF_POINTs (one step = one shared access)",
+        "a thread pushed to a run queue eventually runs; a saved context is resumed only through a run-queue push",
+        "no 64-bit overflow of barrier->state (it never exceeds N)"])
+
+
+def replay(ctx, path):
+    body = json.load(open(path))
+    exe, drv = build(ctx)
+    if "case" not in body:
+        print("replay file holds no case (broken obligation: %s)" % body.get("theorem_or_correspondence"))
+        return 0
+    res = run_cases(ctx, exe, drv, [body["case"]], tag="replay")
+    r = res[0]
+    print(body["case"])
+    print("verdict:", r["verdict"], "rc:", r["rc"])
+    print("model:  ", r["model"], r["fail_context"][:1])
+    print("oracle: ", oracle(r["case"], r))
+    print("trace:  ", r["trace_path"])
+    return 0
